@@ -1854,6 +1854,15 @@ theorem byteAt_zero_map (b : List Nat) (i : Nat) : byteAt (b.map (fun _ => 0)) i
   simp only [List.getD, List.getElem?_map]
   cases b[i]? <;> rfl
 
+
+theorem map_zero_eq_replicate (b : List Nat) : b.map (fun _ => 0) = List.replicate b.length 0 := by
+  induction b with
+  | nil => rfl
+  | cons x rest ih => simp [List.replicate_succ, ih]
+
+theorem vecResize_nil (n : Nat) : vecResize [] n = List.replicate n 0 := by
+  simp [vecResize]
+
 /-! ### concrete witnesses (the harness replays the same projects on the real runtime, cases 0-5) -/
 
 namespace W
@@ -2019,6 +2028,35 @@ def failRetry8 : Option (Option Err × Option Err × Option Int) :=
     let (rt1, d1, r1) := saveRetainStore rt { writable := false }
     let (_, d2, r2) := saveRetainStore rt1 { d1 with writable := true }
     (r1, r2, num? (d2.file.bind (aget · 10)))
+
+/-- Witness 9 (images keep their length): `start AT %IX0.0`, `level AT %IB1`, `lamp AT %QX0.0`,
+`echo AT %QB1` (globals 10..13), `lamp := start; echo := level`; images sized (2, 2, 0), a field
+driver presenting `[1, 42]`. -/
+def src9 : Source :=
+  { globals := [{ name := 10, retain := .unspecified, init := .value (.num 1 0), addr := some (iX00, 1) },
+                { name := 11, retain := .unspecified, init := .value (.num 12 0),
+                  addr := some ({ area := .input, size := .byte, byte := 1, bit := 0 }, 12) },
+                { name := 12, retain := .unspecified, init := .value (.num 1 0), addr := some (qX00, 1) },
+                { name := 13, retain := .unspecified, init := .value (.num 12 0),
+                  addr := some ({ area := .output, size := .byte, byte := 1, bit := 0 }, 12) }],
+    programs := [{ name := 0, vars := [], body := [.simple (.cpy (g 12) (g 10)), .simple (.cpy (g 13) (g 11))] }] }
+
+def start9 (rt : Runtime) : Runtime := setField (addDriver (resizeIo rt 2 2 0)) [1, 42]
+
+/-- cycle, cold restart, cycle: (image lengths after the restart, slice length the driver is
+handed in the next cycle, output image after that cycle) -/
+def run9 : Option ((Nat × Nat × Nat) × Option Nat × List Nat) :=
+  (build src9).map fun rt =>
+    let r := restartD .cold (cyc (start9 rt))
+    let c := cyc r
+    ((r.io.inputs.length, r.io.outputs.length, r.io.memory.length), c.driver.bind (·.seenIn), c.io.outputs)
+
+/-- the fresh runtime, sized the same, after one cycle -/
+def fresh9 : Option ((Nat × Nat × Nat) × Option Nat × List Nat) :=
+  (build src9).map fun rt =>
+    let r := start9 rt
+    let c := cyc r
+    ((r.io.inputs.length, r.io.outputs.length, r.io.memory.length), c.driver.bind (·.seenIn), c.io.outputs)
 
 end W
 
